@@ -9,6 +9,12 @@ def plan(tier):
         for m1 in MODELS:
             for m2 in MODELS:
                 I.append(inst(f"roundtrip[n={n},{m1}->{m2}]", 'harness.c01', 'roundtrip', dict(n=n, m1=m1, m2=m2), weight=n))
+    if tier == 'quick':
+        for m1, m2 in [("halfspace", "klein"), ("klein", "halfspace"), ("halfspace", "poincare"), ("poincare", "hyperboloid"), ("hyperboloid", "halfspace")]:
+            I.append(inst(f"roundtrip[n=3,{m1}->{m2}]", 'harness.c01', 'roundtrip', dict(n=3, m1=m1, m2=m2), weight=4))
+    # the reported distance does not depend on which homogeneous representatives (either sheet) the points carry
+    for n in ([1, 2] if tier == 'quick' else [1, 2, 3]):
+        I.append(inst(f"distance-any-representative[n={n}]", 'harness.c12', 'distance', dict(n=n), weight=4, timeout_s=600))
     # composite shapes and ideal points
     for shape in ([(1,), (2,)] if tier == 'quick' else [(1,), (2,), (2, 1), (1, 2)]):
         for m1, m2 in [("poincare", "halfspace"), ("halfspace", "klein"), ("hyperboloid", "poincare")]:
